@@ -7,6 +7,7 @@ with the head content, and no document for paths absent from the head — the sa
 build gives.
 -/
 import ZoektModel.C13.Lemmas
+import ZoektModel.C13.Sharded
 namespace ZoektModel.C13
 
 /-- every tree of the repository has distinct paths -/
@@ -432,6 +433,129 @@ theorem C13_checkView (I : Ignore) (hI : I.WF) (evs : List Ev) (hwf : ∀ e ∈ 
   show List.count (p, x) _ = _
   rw [index_view_count]
   exact C13_view_eq_head I hI diffTrees diffTrees_valid evs hwf d thr brs b hb p x
+
+/-! ## builds that write several shards -/
+
+theorem sum_cnt_split (cuts : List Nat) (m : Files) (b : Branch) (p : Path) (x : Blob) :
+    ((splitDocs cuts m).map fun d => (⟨d, []⟩ : Shard).cnt b p x).sum = cntFiles m b p x := by
+  induction cuts generalizing m with
+  | nil => simp [splitDocs, Shard.cnt]
+  | cons n ns ih =>
+    unfold splitDocs
+    split
+    · simp [Shard.cnt]
+    · simp only [List.map_cons, List.sum_cons, ih]
+      simp only [Shard.cnt, List.not_mem_nil, if_false, cntFiles]
+      rw [← List.countP_append, List.take_append_drop]
+
+theorem keys_split (cuts : List Nat) (m : Files) (h : KeysPW m) : ∀ d ∈ splitDocs cuts m, KeysPW d := by
+  induction cuts generalizing m with
+  | nil => intro d hd; simp [splitDocs] at hd; subst hd; exact h
+  | cons n ns ih =>
+    intro d hd
+    unfold splitDocs at hd
+    split at hd
+    · simp at hd; subst hd; exact h
+    · rcases List.mem_cons.mp hd with rfl | hd
+      · exact List.Pairwise.sublist (List.take_sublist _ _) h
+      · exact ih _ (List.Pairwise.sublist (List.drop_sublist _ _) h) d hd
+
+theorem cnt_fullBuildS (I : Ignore) (r : Repo) (brs : List Branch) (cuts : List Nat) (b : Branch) (p : Path)
+    (x : Blob) : (fullBuildS I r brs cuts).cnt b p x = (fullBuild I r brs).cnt b p x := by
+  simp only [fullBuildS, fullBuild, Index.cnt, List.map_map, Function.comp_def]
+  rw [sum_cnt_split]
+  simp [Shard.cnt]
+
+theorem cnt_deltaBuildS (diff : Tree → Tree → List Change) (idx : Index) (r : Repo) (cuts : List Nat) (b : Branch)
+    (p : Path) (x : Blob) : (deltaBuildS diff idx r cuts).cnt b p x = (deltaBuild diff idx r).cnt b p x := by
+  simp only [deltaBuildS, deltaBuild, Index.cnt, List.map_append, List.sum_append]
+  congr 1
+  by_cases he : (prepareDelta diff idx.snap r idx.brs).1.isEmpty = true
+  · simp [he]
+  · simp only [he, if_false, List.map_map, Function.comp_def, Bool.false_eq_true]
+    rw [sum_cnt_split]
+    simp [Shard.cnt]
+
+theorem inv_indexRunS (I : Ignore) (hI : I.WF) (diff : Tree → Tree → List Change) (hd : DiffOK diff) (idx : Index)
+    (r : Repo) (d : Bool) (thr : Nat) (brs : List Branch) (cuts : List Nat) (hinv : Inv I idx) (hr : RepoWF r) :
+    Inv I (indexRunS I diff idx r d thr brs cuts) := by
+  unfold indexRunS
+  split
+  · rename_i h
+    simp only [Bool.and_eq_true, Bool.not_eq_true'] at h
+    have hi := inv_deltaBuild I hI diff hd idx r hinv hr h.2
+    refine ⟨hr, ?_, ?_⟩
+    · intro s hs
+      simp only [deltaBuildS, List.mem_append, List.mem_map] at hs
+      rcases hs with ⟨s0, hs0, rfl⟩ | hs
+      · exact hinv.2.1 s0 hs0
+      · split at hs
+        · simp at hs
+        · obtain ⟨d', hd', rfl⟩ := List.mem_map.mp hs
+          exact keys_split cuts _ (by rw [prepareDelta_eq]; exact keys_prepareLoop _ _ _ _ _ _ keys_nil) d' hd'
+    · intro b hb p x
+      show (deltaBuildS diff idx r cuts).cnt b p x = _
+      rw [cnt_deltaBuildS]
+      exact hi.2.2 b hb p x
+  · have hi := inv_fullBuild I r brs hr
+    refine ⟨hr, ?_, ?_⟩
+    · intro s hs
+      simp only [fullBuildS, List.mem_map] at hs
+      obtain ⟨d', hd', rfl⟩ := hs
+      exact keys_split cuts _ (keys_collect I r brs) d' hd'
+    · intro b hb p x
+      show (fullBuildS I r brs cuts).cnt b p x = _
+      rw [cnt_fullBuildS]
+      exact hi.2.2 b hb p x
+
+def EvSWF : EvS → Prop
+  | .commit _ t => TreeWF t
+  | .index .. => True
+
+theorem inv_historyS (I : Ignore) (hI : I.WF) (diff : Tree → Tree → List Change) (hd : DiffOK diff) (evs : List EvS)
+    (hwf : ∀ e ∈ evs, EvSWF e) (st : Repo × Index) (h : RepoWF st.1 ∧ Inv I st.2) :
+    RepoWF (evs.foldl (stepS I diff) st).1 ∧ Inv I (evs.foldl (stepS I diff) st).2 := by
+  induction evs generalizing st with
+  | nil => exact h
+  | cons e es ih =>
+    rw [List.foldl_cons]
+    apply ih (fun e' he' => hwf e' (List.mem_cons_of_mem _ he'))
+    obtain ⟨r, idx⟩ := st
+    cases e with
+    | commit b t =>
+      have ht : EvSWF (.commit b t) := hwf _ (by simp)
+      exact ⟨repoWF_commit r b t h.1 ht, h.2⟩
+    | index d thr brs cuts => exact ⟨h.1, inv_indexRunS I hI diff hd idx r d thr brs cuts h.2 h.1⟩
+
+theorem indexRunS_records (I : Ignore) (diff : Tree → Tree → List Change) (idx : Index) (r : Repo) (d : Bool)
+    (thr : Nat) (brs : List Branch) (cuts : List Nat) :
+    (indexRunS I diff idx r d thr brs cuts).brs = brs ∧ (indexRunS I diff idx r d thr brs cuts).snap = r := by
+  unfold indexRunS
+  split
+  · rename_i h
+    simp only [deltaOk, Bool.and_eq_true, beq_iff_eq] at h
+    exact ⟨h.1.1.2.2, rfl⟩
+  · exact ⟨rfl, rfl⟩
+
+/-- **C13 with multi-shard builds** — the same statement when every run may cut its documents into any number of
+    shards (so the shard-number threshold and tombstone propagation see several shards per build) -/
+theorem C13_view_eq_head_sharded (I : Ignore) (hI : I.WF) (diff : Tree → Tree → List Change) (hd : DiffOK diff)
+    (evs : List EvS) (hwf : ∀ e ∈ evs, EvSWF e) (d : Bool) (thr : Nat) (brs : List Branch) (cuts : List Nat)
+    (b : Branch) (hb : b ∈ brs) :
+    ViewIsHeadIg (head (runHistoryS I diff (evs ++ [.index d thr brs cuts])).1 b)
+      (I.ig (head (runHistoryS I diff (evs ++ [.index d thr brs cuts])).1 b))
+      ((runHistoryS I diff (evs ++ [.index d thr brs cuts])).2.cnt b) := by
+  unfold runHistoryS
+  rw [List.foldl_append]
+  have h := inv_historyS I hI diff hd evs hwf ([], Index.empty) ⟨repoWF_nil, inv_empty I⟩
+  generalize evs.foldl (stepS I diff) ([], Index.empty) = st at h
+  obtain ⟨r, idx⟩ := st
+  simp only [List.foldl_cons, List.foldl_nil, stepS]
+  have hi := inv_indexRunS I hI diff hd idx r d thr brs cuts h.2 h.1
+  obtain ⟨h1, h2⟩ := indexRunS_records I diff idx r d thr brs cuts
+  have := hi.2.2 b (by rw [h1]; exact hb)
+  rw [h2] at this
+  exact this
 
 /-! non-vacuity: two branches share `a` (blob 1); branch 0 modifies it, deletes `b`, adds `c`; delta build.
     The old shard gets tombstones for paths 10 and 11, branch 1's unchanged copy of path 10 is re-added. -/
